@@ -159,6 +159,79 @@ impl C09 {
         }
     }
 
+    /// the deprecated alias, same oracle
+    fn judge_alias(&self, ctx: &mut Ctx, class: &str, before: &PL, f: &mut LOh<u32, u64>, big: bool) -> Option<PL> {
+        let input = || if big { json!("stress shape") } else { json!({"diagram": show_lax(before)}) };
+        let (cls, k, ok) = uniform(before);
+        let ucls = if ok { "label_consistent" } else { "label_conflict" };
+        ctx.class(ucls);
+        let r = match guard(|| crate::compat::quotient_witness(f)) {
+            Ok(Some(x)) => Ok(x),
+            Ok(None) => return None, // the alias no longer exists: nothing to judge
+            Err(p) => Err(p),
+        };
+        ctx.api("OpenHypergraph::quotient_witness");
+        let r = match r {
+            Ok(x) => x,
+            Err(p) => {
+                ctx.evaluations += 1;
+                ctx.outcome("panic");
+                ctx.violation(&format!("OpenHypergraph::quotient_witness/returns/{}/{}", p.sig(), ucls), json!({"input": input(), "observed": p.json()}));
+                return None;
+            }
+        };
+        // on failure the diagram may legitimately be anything the snapshot was (even ill-formed
+        // data is compared field by field); on success the result must be well-formed
+        let after = if r.is_ok() {
+            match walk_lax(ctx, "OpenHypergraph::quotient_witness", ucls, f, &input) {
+                Some(a) => a,
+                None => return None,
+            }
+        } else {
+            from_lax_raw(f)
+        };
+        match (ok, r) {
+            (true, Ok(q)) => {
+                
+                let qt = &q.table.0;
+                let part_ok = qt.len() == before.w.len() && q.target == k && same_partition(qt, &cls);
+                ctx.check(part_ok, &format!("OpenHypergraph::quotient_witness/fibres-are-components/value/{}", class), || {
+                    json!({"input": input(), "observed_q": if big { vec![] } else { qt.clone() }, "observed_target": q.target, "expected_partition": if big { vec![] } else { cls.clone() }, "expected_classes": k})
+                });
+                if !part_ok {
+                    return None;
+                }
+                let want = apply_q(before, qt, k);
+                let ok2 = want.as_ref() == Some(&after);
+                ctx.check(ok2, &format!("OpenHypergraph::quotient_witness/rewrites-every-reference/value/{}", class), || {
+                    json!({"input": input(), "q": if big { vec![] } else { qt.clone() }, "observed": if big { "".into() } else { show_lax(&after) }, "expected": want.as_ref().map(|w| if big { "".into() } else { show_lax(w) })})
+                });
+                Some(after)
+            }
+            (true, Err(_)) => {
+                
+                ctx.check(false, &format!("OpenHypergraph::quotient_witness/succeeds-iff-uniform/value/{}", ucls), || json!({"input": input(), "observed": "Err", "expected": "Ok"}));
+                None
+            }
+            (false, Ok(_)) => {
+                
+                ctx.check(false, &format!("OpenHypergraph::quotient_witness/succeeds-iff-uniform/value/{}", ucls), || json!({"input": input(), "observed": "Ok", "expected": "Err (a class carries two labels)"}));
+                None
+            }
+            (false, Err(_)) => {
+                
+                ctx.evaluations += 1;
+                if ctx.check(after == *before && lax_lens(f) == plax_lens(before), "OpenHypergraph::quotient_witness/failed-leaves-diagram-unchanged/value/label_conflict", || {
+                    json!({"input": input(), "observed_after": if big { "".into() } else { show_lax(&after) }, "expected_after": "exactly the diagram before the call"})
+                }) {
+                    Some(after)
+                } else {
+                    None
+                }
+            }
+        }
+    }
+
     /// same on a bare lax hypergraph
     fn judge_hyper(&self, ctx: &mut Ctx, class: &str, before: &PL, big: bool) {
         let input = || if big { json!("stress shape") } else { json!({"diagram": show_lax(before)}) };
@@ -261,23 +334,12 @@ impl C09 {
                 }
             }
         }
-        // the deprecated alias must behave exactly like quotient()
+        // the deprecated alias is judged by the same oracle as quotient() (not against a second run: the numbering of
+        // the merged nodes is not pinned, not even between two calls)
         {
             let mut a = to_lax(p);
-            let mut b = to_lax(p);
-            #[allow(deprecated)]
-            let ra = guard(|| a.quotient_witness());
-            let rb = guard(|| b.quotient());
             ctx.api("OpenHypergraph::quotient_witness");
-            let same = match (&ra, &rb) {
-                (Ok(Ok(x)), Ok(Ok(y))) => x.table.0 == y.table.0 && x.target == y.target,
-                (Ok(Err(_)), Ok(Err(_))) => true,
-                (Err(_), Err(_)) => true,
-                _ => false,
-            };
-            ctx.check(same && a == b && from_lax_raw(&a) == from_lax_raw(&b) && lax_lens(&a) == lax_lens(&b), "OpenHypergraph::quotient_witness/same-as-quotient/value/any", || {
-                json!({"input": if big { "stress".into() } else { show_lax(p) }, "after_alias": if big { "".into() } else { show_lax(&from_lax_raw(&a)) }, "after_quotient": if big { "".into() } else { show_lax(&from_lax_raw(&b)) }})
-            });
+            self.judge_alias(ctx, class, p, &mut a, big);
         }
         self.judge_hyper(ctx, class, p, big);
         ctx.sample(class, || json!({"diagram": if big { format!("stress: {} nodes, {} pairs", p.w.len(), p.q.len()) } else { show_lax(p) }}));
@@ -435,7 +497,7 @@ impl Monitor for C09 {
         corpus().len() as u64 + 6
     }
     fn floors(&self) -> Vec<(&'static str, u64)> {
-        vec![
+        let mut v = vec![
             ("class:label_consistent", 200),
             ("events:history_absorbs_a_diagram_with_pending_pairs", 500),
             ("class:history_deletes_one_endpoint_of_a_pending_pair", 100),
@@ -453,8 +515,12 @@ impl Monitor for C09 {
             ("events:history_quotients", 100),
             ("class:history_with_repeated_quotient", 20),
             ("api:Hypergraph::quotient", 200),
-            ("api:OpenHypergraph::quotient_witness", 200),
-        ]
+
+        ];
+        if crate::compat::HAS_QUOTIENT_WITNESS {
+            v.push(("api:OpenHypergraph::quotient_witness", 200));
+        }
+        v
     }
     fn run_case(&self, idx: u64, r: &mut Rng, ctx: &mut Ctx) {
         let c = corpus();
